@@ -25,6 +25,9 @@ META = {
 }
 
 
+ENUM_NAMES = ('ETYPE', 'Status', 'quality_t')
+
+
 def _rec(n, dtype):
     return symnp.SymRec(n, np.dtype(dtype))
 
@@ -216,7 +219,10 @@ def ob_misc(case):
                     _set(rec, 'id', i, BV(i, 'i4'))
                     _set(rec, 'kind', i, lab)
                     _set(rec, 'name', i, sv)
-                ymod.write_ndarray_to_yanny('/d/e.par', rec, structnames='en', enums={'kind': ('ETYPE', ('ALPHA', 'BETA', 'GAMMA'))})
+                # the enum's type name is any identifier (choice made by the solver): upper, mixed or lower case
+                ename = ENUM_NAMES[int(ctx.int('enum_name', 0, len(ENUM_NAMES) - 1))]
+                d = dict(d, enum_name=ename)
+                ymod.write_ndarray_to_yanny('/d/e.par', rec, structnames='en', enums={'kind': (ename, ('ALPHA', 'BETA', 'GAMMA'))})
                 back = ymod.yanny('/d/e.par')
                 ctx.require([bytes(SStr.lift(v).concrete()) if isinstance(v, SStr) else bytes(v) for v in column_values(back, 'EN', 'kind')] == [b'ALPHA', b'BETA'],
                             'enum columns read back as label text', d)
@@ -356,6 +362,15 @@ def replay(rec):
                     if tb[c].tolist() != got[c].tolist():
                         return True
             return False
+        if d.get('fn') == 'misc' and d.get('case') == 'enum':
+            ename = d.get('enum_name', ENUM_NAMES[int(inp.get('enum_name', 0))])
+            sv = 'a' + chr(int(inp.get('m_0', 65)))
+            rec_ = np.zeros(2, dtype=[('id', 'i4'), ('kind', 'S5'), ('name', 'S3')])
+            for i, lab in enumerate((b'ALPHA', b'BETA')):
+                rec_['id'][i], rec_['kind'][i], rec_['name'][i] = i, lab, sv.encode('latin-1')
+            write_ndarray_to_yanny(fn, rec_, structnames='en', enums={'kind': (ename, ('ALPHA', 'BETA', 'GAMMA'))})
+            back = yanny(fn)          # an exception here = reproduced for 'exception:' labels (harness.replay)
+            return bool(back['EN']['kind'].tolist() != [b'ALPHA', b'BETA'] or not back.isenum('EN', 'kind') or back.isenum('EN', 'name'))
         if d.get('fn') == 'ints':
             kind = d['kind']
 
